@@ -26,9 +26,24 @@ Oracle (purely differential, no hand-written expectation):
     (the __cause__ / __context__ chain of the escaping exception is searched);
   * the body runs exactly once per trace (once when accepted, never more than
     once, and as often as in the eager call).
+
+Wave-5 additions (same engine, same oracle):
+  * container alphabet of PyTree arguments: dicts in EVERY insertion order of 2-3 keys with
+    per-key different shapes, namedtuples, nested containers, None leaves (JAX rebuilds every
+    container when it traces, dicts in sorted-key order; eagerly the caller's object arrives);
+    PyTree return annotations whose value the body builds in a stated insertion order;
+  * f-string axes that read STATIC attributes of other parameters: of arrays ({x0.ndim},
+    {x0.shape[0]}, {len(x0)}, {x0.shape[-1]+1}) and of non-array parameters ({x1} for a Python
+    int, {x1.size} for a hashable config object), the latter never traced (closure,
+    jit static_argnums / static_argnames, vmap in_axes None, non-differentiated by grad);
+  * partial tracing: some array arguments stay CONCRETE while the others are traced
+    (closed over under eval_shape / jit, in_axes None under vmap, non-differentiated under grad,
+    and vmap / grad called directly on concrete arrays).
 """
 from __future__ import annotations
 
+import collections
+import dataclasses
 import itertools
 import json
 
@@ -62,6 +77,53 @@ FILLS = ["zeros", "arange", "nan"]
 
 TREE_LEAF_SHAPES = [(2,), (3,), (2, 2)]
 
+# f-string axes reading static attributes of ANOTHER parameter (x0) that is an array
+FSTR = ["{x0.ndim}", "{x0.shape[0]}", "{len(x0)}", "{x0.shape[-1]+1}"]
+FSTR_MIXED = ["a {x0.ndim}", "{x0.ndim}*a", "{x0.size}"]  # next to / inside an expression over a named axis; .size
+S_F = [(), (1,), (2,), (3,), (1, 2), (2, 2), (3, 2)]
+S_F4 = [(1,), (2,), (2, 2), (3, 2)]
+STATIC_KINDS = ("I", "C")
+
+NT2 = collections.namedtuple("NT2", ["a", "b"])
+NT3 = collections.namedtuple("NT3", ["a", "b", "c"])
+
+
+@dataclasses.dataclass(frozen=True)
+class Cfg:
+    """A hashable non-array argument (static under jit) whose attribute feeds an axis."""
+
+    size: int
+
+
+def _dict_orders(items):
+    """Every insertion order of the (key, value) items."""
+    return [["D", [list(kv) for kv in perm]] for perm in itertools.permutations(items)]
+
+
+def order_trees(tier):
+    """(argument trees, trees the body returns) of the container-order families."""
+    a2, a3, a22, a23 = ["A", [2]], ["A", [3]], ["A", [2, 2]], ["A", [2, 3]]
+    none = ["0"]
+    out = []
+    two = [(a2, a3), (a3, a2), (a2, a2), (a22, a23), (a23, a22)]
+    if tier == "thorough":
+        two += [(a3, a3), (a2, a22), (a22, a2)]
+    for x, y in two:  # 2 keys: both insertion orders
+        out += _dict_orders([("p", x), ("q", y)])
+    three = [(a2, a3, a2)] + ([(a3, a2, a2), (a22, a23, a2)] if tier == "thorough" else [])
+    for x, y, z in three:  # 3 keys: all 6 insertion orders
+        out += _dict_orders([("p", x), ("q", y), ("r", z)])
+    dicts = list(out)
+    out += [["N", [a2, a3]], ["N", [a3, a2]]]  # namedtuples (field order, never re-sorted)
+    out += _dict_orders([("p", ["T", [a2, a3]]), ("q", a2)])  # nested containers
+    out += [["D", [["q", inner], ["p", a2]]] for inner in _dict_orders([("a", a2), ("b", a3)])]
+    out += _dict_orders([("p", none), ("q", a2)])  # None leaves
+    out += [["T", [a2, none, a3]]]
+    if tier == "thorough":
+        out += [["N", [a2, a3, a2]], ["T", [a2, a3]], ["L", [a3, a2]], ["N", [["D", [["q", a3], ["p", a2]]], a2]]]
+        out += _dict_orders([("p", none), ("q", a2), ("r", a3)])
+    return out, dicts
+
 
 def _A(d):
     return ["A", d]
@@ -90,8 +152,12 @@ def families(tier):
     L2, L3, L22, L32 = ["A", [2]], ["A", [3]], ["A", [2, 2]], ["A", [3, 2]]
     D2 = D3[:2]
 
-    def fam(name, sigs, arr, RS, tr, trees=None, tbf="off"):
-        fams.append(dict(name=name, sigs=sigs, arr=arr, RS=RS, tr=tr, trees=trees or [], tbf=tbf))
+    def fam(name, sigs, arr, RS, tr, trees=None, tbf="off", ints=True, partial=False, statics=()):
+        fams.append(dict(name=name, sigs=sigs, arr=arr, RS=RS, tr=tr, trees=trees or [], tbf=tbf, ints=ints, partial=partial, statics=list(statics)))
+
+    QV, T2 = _P("*?v", "T"), _P("_ a", "T")
+    otrees, odicts = order_trees(tier)
+    I, C = ["I"], ["C"]
 
     def sig(ds, rets):
         return [(tuple(_A(d) for d in dd), r) for dd in itertools.product(*ds) for r in rets]
@@ -107,6 +173,21 @@ def families(tier):
         trees2 = [L2, L22, ["T", [L2, L2]], ["T", [L2, L3]], ["D", [["p", L2], ["q", L3]]], ["T", [L2, ["L", [L3]]]], ["T", [L22, L32]]]
         fam("tree2", [(pq, r) for pq in [(T, T), (T, Q), (T, A), (Q, Q), (U, T), (A, T)] for r in (None, "a")], TREE_LEAF_SHAPES, RS2, T_ALL, trees=trees2)
         fam("k1_tbf_auto", sig([D6], [None, "a"]), S, RS2, T_ALL, tbf="auto")
+        # container order: every pair of argument trees (positions are compared ACROSS the two trees)
+        fam("order2", [(pq, None) for pq in [(Q, Q), (QV, QV), (T, Q), (QV, T2), (T, T)]], [], [()], T_BASIC + ["jit.vmap", "grad.jit"], trees=otrees, ints=False)
+        fam("order_ret", [((p,), p) for p in (Q, QV, T)], [], odicts, ["eval_shape", "jit", "make_jaxpr", "vmap", "jit.vmap", "vmap.jit"], trees=otrees, ints=False)
+        # f-string axes over static attributes of array parameters, every subset of arguments traced
+        fam("fstr2", sig([["*v", "a", "a b", "... a"], FSTR + FSTR_MIXED], [None]) + sig([FSTR[:1] + ["{x1.ndim}", "{len(x1)}"], ["*v", "a"]], [None]),
+            S_F, RS2, T_BASIC, ints=False, partial=True)
+        fam("fstr2comp", sig([["*v", "a"], FSTR], [None]), S_F4, RS2, T_COMP, ints=False)
+        fam("fstr_ret", sig([["*v"], ["a"]], ["{x0.ndim}", "{len(x1)}", "{x0.shape[-1]+1}"]) + sig([["*v", "{x0.ndim}", "{len(x0)}"]], ["{x0.ndim}", "{len(x0)}"]),
+            S_F, ["like0", (1,), (2,)], T_ALL, partial=True)
+        fam("fstr_tree", [((_A("*v"), _P(d, None)), None) for d in FSTR] + [((_A("*v"), _P("?a {x0.ndim}", "T")), None)], S_F4, RS2, T_BASIC,
+            trees=[L2, L22, ["T", [L2, L3]], ["D", [["q", L2], ["p", L22]]], ["T", [L22, L32]]], ints=False, partial=True)
+        # axes fed by non-array parameters that are never traced
+        fam("static2", [((_A(d), I), r) for d in ["{x1}", "a {x1}", "{x1}+1", "{x1}*a"] for r in (None, "{x1}")] + [((_A(d), C), r) for d in ["{x1.size}", "a {x1.size}"] for r in (None, "{x1.size}")],
+            S_F, ["like0", (2,)], T_ALL, statics=[1, 2, 3])
+        fam("static3", [((_A("a"), I, _A(d)), None) for d in ["{x1}", "{x1} a", "{x0.ndim+x1}"]] + [((I, _A("{x0}"), _A("{x0} {x1.ndim}")), None)], S4, RS2, T_ALL, ints=False, statics=[1, 2])
     else:
         fam("k1", sig([D6 + ["*v"]], [None, "a", "*v a", "a+1"]), S, ["like0", (2,)], T_ALL)
         fam("k2", sig([D2, D2], [None]), S3, RS2, T_ALL)
@@ -116,6 +197,12 @@ def families(tier):
         trees2 = [L2, L3, ["T", [L2, L3]], ["D", [["p", L2], ["q", L2]]], ["T", [L22, L32]]]
         fam("tree2", [(pq, r) for pq in [(T, T), (T, Q), (T, A)] for r in (None, "a")], TREE_LEAF_SHAPES, RS2, T_BASIC, trees=trees2)
         fam("k1_tbf_auto", sig([D2], [None, "a"]), S5, RS2, T_ALL, tbf="auto")
+        fam("order2", [(pq, None) for pq in [(Q, Q), (QV, QV)]], [], [()], T_BASIC, trees=otrees, ints=False)
+        fam("order_ret", [((p,), p) for p in (Q, QV)], [], odicts, ["eval_shape", "jit", "vmap"], trees=otrees, ints=False)
+        fam("fstr2", sig([["*v", "a"], FSTR], [None]) + sig([["{x1.ndim}"], ["*v"]], [None]), S_F4, RS2, T_BASIC, ints=False, partial=True)
+        fam("fstr_ret", sig([["*v"], ["a"]], ["{x0.ndim}", "{len(x1)}"]) + sig([["*v"]], ["{x0.ndim}"]), S_F4, ["like0", (1,)], T_BASIC, ints=False, partial=True)
+        fam("static2", [((_A(d), I), r) for d in ["{x1}", "a {x1}"] for r in (None, "{x1}")] + [((_A("{x1.size}"), C), None)], S_F4, ["like0", (2,)], T_ALL, ints=False, statics=[1, 2, 3])
+        fam("static3", [((_A("a"), I, _A("{x1} a")), None)], S3, RS2, T_BASIC + ["jit.vmap"], ints=False, statics=[1, 2])
     return fams
 
 
@@ -125,20 +212,26 @@ def family_functions(fam):
 
 
 # ------------------------------------------------------------------ value algebra
-# value (JSON): ["A", shape, dtype] | ["T", [v..]] | ["L", [v..]] | ["D", [[key, v]..]]
+# value (JSON): ["A", shape, dtype] | ["T", [v..]] tuple | ["L", [v..]] list | ["N", [v..]] namedtuple | ["D", [[key, v]..]] dict in
+# INSERTION order | ["0"] None | ["I", n] Python int | ["C", n] Cfg(size=n).  "I" / "C" are static: never traced, never batched.
 
 
 def v_leaves(v):
+    """The array leaves in JAX's flattening order (dict keys sorted, None dropped)."""
     if v[0] == "A":
         return [v]
+    if v[0] in ("0",) + STATIC_KINDS:
+        return []
     if v[0] == "D":
-        return [l for _, x in v[1] for l in v_leaves(x)]
+        return [l for _, x in sorted(v[1], key=lambda kv: kv[0]) for l in v_leaves(x)]
     return [l for x in v[1] for l in v_leaves(x)]
 
 
 def v_map(v, fn):
     if v[0] == "A":
         return fn(v)
+    if v[0] in ("0",) + STATIC_KINDS:
+        return v
     if v[0] == "D":
         return ["D", [[k, v_map(x, fn)] for k, x in v[1]]]
     return [v[0], [v_map(x, fn) for x in v[1]]]
@@ -167,6 +260,8 @@ def unbatch(vals, in_axes):
         if ax is None:
             out.append(v)
             continue
+        if v[0] in STATIC_KINDS:
+            return None
         for l in v_leaves(v):
             if len(l[1]) <= ax:
                 return None
@@ -181,14 +276,39 @@ def all_in_axes(k):
     return [list(ia) for ia in itertools.product((None, 0, 1), repeat=k) if any(a is not None for a in ia)]
 
 
-def transforms_for(vals, names, grad_ok):
+def _subsets(pos):
+    """Every non-empty proper subset, in order."""
+    return [list(c) for r in range(1, len(pos)) for c in itertools.combinations(pos, r)]
+
+
+def transforms_for(vals, names, grad_ok, partial=False):
     """Every member of the transformation catalogue that is valid for vals, with
-    the values the function body will see."""
+    the values the function body will see.
+
+    A transformation is [name, in_axes..., options?].  Options (a dict, last):
+      conc    positions whose (array / tree) argument stays a CONCRETE array: closed over under eval_shape / jit,
+              passed with in_axes None (or batched) to vmap, not differentiated by grad; when every position is
+              concrete, vmap / grad are called directly on arrays (no enclosing eval_shape);
+      argnums positions differentiated by grad (default: every array position);
+      st      how static ("I"/"C") arguments reach a jit: "closure" | "nums" (static_argnums) | "names"
+              (static_argnames, passed by keyword).  eval_shape / make_jaxpr: closure.  vmap: in_axes None.
+              grad: not in argnums.  Compositions containing jit: static_argnums.
+    """
     k = len(vals)
+    spos = [j for j, v in enumerate(vals) if v[0] in STATIC_KINDS]
+    apos = [j for j in range(k) if j not in spos]
+    subsets = _subsets(apos) if partial else []
     out = []
     for n in ("eval_shape", "jit", "make_jaxpr"):
         if n in names:
-            out.append(([n], vals))
+            if not spos:
+                out.append(([n], vals))
+            else:
+                for m in (["closure", "nums", "names"] if n == "jit" else ["closure"]):
+                    out.append(([n, {"st": m}], vals))
+            if n != "make_jaxpr" and not spos:
+                for c in subsets:
+                    out.append(([n, {"conc": c}], vals))
     if any(n in names for n in ("vmap", "jit.vmap", "vmap.jit", "vmap.vmap")):
         axes = all_in_axes(k)
         for ia in axes:
@@ -198,6 +318,11 @@ def transforms_for(vals, names, grad_ok):
             for n in ("vmap", "jit.vmap", "vmap.jit"):
                 if n in names:
                     out.append(([n, ia], seen))
+            if "vmap" in names and partial and not spos:
+                unmapped = [j for j in apos if ia[j] is None]
+                if unmapped:
+                    out.append((["vmap", ia, {"conc": unmapped}], seen))
+                out.append((["vmap", ia, {"conc": apos}], seen))
             if "vmap.vmap" in names:
                 for ib in axes:
                     seen2 = unbatch(seen, ib)
@@ -207,39 +332,53 @@ def transforms_for(vals, names, grad_ok):
         for n in ("grad", "grad.jit"):
             if n in names:
                 out.append(([n], vals))
+        if "grad" in names and not spos:
+            for a in subsets:
+                out.append((["grad", {"argnums": a}], vals))
     return out
 
 
-def dtype_configs(k, ret, rs, rs_list):
+def dtype_configs(k, ret, rs, rs_list, ints=True, int_positions=None):
     """(int position or None, ret dtype).  All-float; int32 result (violates a
     Float return annotation) when a return annotation exists; int32 at parameter
     j for every j (only with the first ret_shape: the parameter check rejects
-    before the body runs)."""
+    before the body runs).  Families with ints=False: all-float only."""
     cfgs = [(None, "f")]
-    if ret is not None:
+    if ret is not None and ints:
         cfgs.append((None, "i"))
-    if rs == rs_list[0]:
-        cfgs += [(j, "f") for j in range(k)]
+    if rs == rs_list[0] and ints:
+        cfgs += [(j, "f") for j in (range(k) if int_positions is None else int_positions)]
     return cfgs
 
 
-def enumerate_cases(fam, spec):
-    """Yield (vals, rs, rdt, [(transform, seen_vals)...]) for one function."""
+PART_SIZE = 1500  # functions with more planned evaluations than this are split by input index into parts (load balancing only)
+
+
+def enumerate_cases(fam, spec, part=0, nparts=1):
+    """Yield (vals, rs, rdt, [(transform, seen_vals)...]) for one function (inputs with index = part mod nparts)."""
+    if nparts > 1:
+        for i, case in enumerate(enumerate_cases(fam, spec)):
+            if i % nparts == part:
+                yield case
+        return
     tc, params, ret = spec
     k = len(params)
     cands = []
     for p in params:
         if p[0] == "A":
             cands.append([["A", list(s)] for s in fam["arr"]])
+        elif p[0] in STATIC_KINDS:
+            cands.append([[p[0], n] for n in fam["statics"]])
         else:
             cands.append(fam["trees"])
+    apos = [j for j, p in enumerate(params) if p[0] not in STATIC_KINDS]
     rs_list = fam["RS"] if ret is not None else [()]
     for shp in itertools.product(*cands):
         for rs in rs_list:
-            for ipos, rdt in dtype_configs(k, ret, rs, rs_list):
+            for ipos, rdt in dtype_configs(k, ret, rs, rs_list, fam.get("ints", True), apos):
                 vals = [v_with_dtypes(v, ipos == j) for j, v in enumerate(shp)]
                 grad_ok = ipos is None and rdt == "f" and rs == ()
-                yield vals, (rs if rs == "like0" else list(rs)), rdt, transforms_for(vals, fam["tr"], grad_ok)
+                yield vals, (rs if rs == "like0" else list(rs)), rdt, transforms_for(vals, fam["tr"], grad_ok, fam.get("partial", False))
 
 
 # ------------------------------------------------------------------ rendering
@@ -247,8 +386,18 @@ def enumerate_cases(fam, spec):
 
 def sig_str(spec):
     tc, params, ret = spec
-    ps = ",".join(f"[{p[1]}]" if p[0] == "A" else f"PyTree[{p[1]}|{p[2]}]" for p in params)
-    return f"{tc}:({ps})->{'-' if ret is None else '[' + ret + ']'}"
+
+    def one(p):
+        if p[0] == "A":
+            return f"[{p[1]}]"
+        if p[0] == "I":
+            return "int"
+        if p[0] == "C":
+            return "Cfg"
+        return f"PyTree[{p[1]}|{p[2]}]"
+
+    ps = ",".join(one(p) for p in params)
+    return f"{tc}:({ps})->{'-' if ret is None else one(ret) if isinstance(ret, list) else '[' + ret + ']'}"
 
 
 def val_str(v):
@@ -256,7 +405,13 @@ def val_str(v):
         return ("i" if v[2] == "i" else "") + "(" + ",".join(map(str, v[1])) + ")"
     if v[0] == "D":
         return "{" + ",".join(f"{k}:{val_str(x)}" for k, x in v[1]) + "}"
-    o, c = ("<", ">") if v[0] == "T" else ("[", "]")
+    if v[0] == "0":
+        return "None"
+    if v[0] == "I":
+        return f"int{v[1]}"
+    if v[0] == "C":
+        return f"Cfg{v[1]}"
+    o, c = {"T": ("<", ">"), "N": ("NT<", ">")}.get(v[0], ("[", "]"))
     return o + ",".join(val_str(x) for x in v[1]) + c
 
 
@@ -264,10 +419,25 @@ def tr_str(tr):
     def ax(ia):
         return "(" + ",".join("N" if a is None else str(a) for a in ia) + ")"
 
-    return tr[0] + "".join(ax(x) for x in tr[1:])
+    axes, opt = tr_parts(tr)
+    o = "".join(f"[{key}={','.join(map(str, val)) if isinstance(val, list) else val}]" for key, val in sorted(opt.items()))
+    return tr[0] + "".join(ax(x) for x in axes) + o
+
+
+def tr_parts(tr):
+    """-> (list of in_axes, options dict)"""
+    rest = list(tr[1:])
+    opt = rest.pop() if rest and isinstance(rest[-1], dict) else {}
+    return rest, opt
+
+
+def is_tree_rs(rs):
+    return isinstance(rs, (list, tuple)) and len(rs) > 0 and isinstance(rs[0], str) and rs != "like0"
 
 
 def rs_str(rs, rdt):
+    if is_tree_rs(rs):
+        return ("i" if rdt == "i" else "f") + val_str(v_map(rs, lambda l: ["A", l[1], "f"]))
     return ("i" if rdt == "i" else "f") + ("<like-x0>" if rs == "like0" else "(" + ",".join(map(str, rs)) + ")")
 
 
@@ -302,12 +472,14 @@ def _env():
 
     def body(*xs):
         CELL["n"] += 1
-        leaves = jax.tree_util.tree_leaves(xs)
+        leaves = [l for l in jax.tree_util.tree_leaves(xs) if hasattr(l, "shape")]  # static ints / Cfg objects are no arrays
         CELL["seen"] = [(tuple(l.shape), l.dtype.name) for l in leaves]
         tot = jnp.float32(0)
         for l in leaves:
             tot = tot + jnp.sum(l)
         dt = CELL["dt"]
+        if is_tree_rs(CELL["rs"]):  # a container built HERE, dicts in the stated insertion order
+            return v_build(CELL["rs"], lambda l: jnp.zeros(tuple(l[1]), dt) + (0 * tot).astype(dt))
         rs = leaves[0].shape if CELL["rs"] == "like0" else CELL["rs"]
         return jnp.zeros(rs, dt) + (0 * tot).astype(dt)
 
@@ -333,6 +505,10 @@ def build_fn(spec):
     def ann(p):
         if p[0] == "A":
             return jt.Float[jax.Array, p[1]]
+        if p[0] == "I":
+            return int
+        if p[0] == "C":
+            return Cfg
         leaf = jt.Float[jax.Array, p[1]]
         return jt.PyTree[leaf] if p[2] is None else jt.PyTree[leaf, p[2]]
 
@@ -342,7 +518,7 @@ def build_fn(spec):
     f = ns["f"]
     annots = {f"x{i}": ann(p) for i, p in enumerate(params)}
     if ret is not None:
-        annots["return"] = jt.Float[jax.Array, ret]
+        annots["return"] = ann(ret) if isinstance(ret, list) else jt.Float[jax.Array, ret]
     f.__annotations__ = annots
     return jt.jaxtyped(typechecker=E["tcs"][tc])(f)
 
@@ -374,11 +550,21 @@ def v_build(v, leaf_fn):
         return tuple(v_build(x, leaf_fn) for x in v[1])
     if v[0] == "L":
         return [v_build(x, leaf_fn) for x in v[1]]
-    return {k: v_build(x, leaf_fn) for k, x in v[1]}
+    if v[0] == "N":
+        return {2: NT2, 3: NT3}[len(v[1])](*[v_build(x, leaf_fn) for x in v[1]])
+    if v[0] == "0":
+        return None
+    if v[0] == "I":
+        return int(v[1])
+    if v[0] == "C":
+        return Cfg(int(v[1]))
+    if v[0] != "D":
+        raise common.HarnessError(f"unknown value kind {v!r}")
+    return {k: v_build(x, leaf_fn) for k, x in v[1]}  # insertion order = listed order
 
 
 def _rs(rs):
-    return rs if rs == "like0" else tuple(rs)
+    return rs if rs == "like0" or is_tree_rs(rs) else tuple(rs)
 
 
 def _outcome(thunk):
@@ -423,39 +609,96 @@ def run_traced(F, vals, rs, rdt, tr):
     E = _env()
     jax = E["jax"]
     k = len(vals)
-    structs = [v_build(v, lambda l: jax.ShapeDtypeStruct(tuple(l[1]), E["dts"][l[2]])) for v in vals]
+    axes, opt = tr_parts(tr)
+    spos = [j for j, v in enumerate(vals) if v[0] in STATIC_KINDS]
+    apos = [j for j in range(k) if j not in spos]
+    conc = list(opt.get("conc", []))
+    if "argnums" in opt:
+        conc = [j for j in apos if j not in opt["argnums"]]
+    st = opt.get("st", "closure")
+    # what the caller holds: static Python objects, concrete arrays at `conc`, eval_shape placeholders elsewhere
+    held = {}
+    for j in spos:
+        held[j] = v_build(vals[j], None)
+    for j in conc:
+        held[j] = v_build(vals[j], lambda l: _concrete_leaf(l, "arange"))
+    dyn = [j for j in range(k) if j not in held]
+    structs = [v_build(vals[j], lambda l: jax.ShapeDtypeStruct(tuple(l[1]), E["dts"][l[2]])) for j in dyn]
 
-    def h(*xs):  # a fresh callable per trace: no tracing cache can be hit
-        return F(*xs)
+    ns = {"_F": F}
+    ps = ", ".join(f"x{i}" for i in range(k))
+    exec(f"def h({ps}):\n    return _F({ps})", ns)  # a fresh callable per trace: no tracing cache can be hit; named parameters for static_argnames
+    h = ns["h"]
 
     def ia(x):
         return tuple(x)
 
+    def closed(T, cpos):
+        """T applied to the function of the arguments NOT in cpos; those in cpos are closure constants."""
+        if not cpos:
+            return T(h)
+        pos = [j for j in range(k) if j not in cpos]
+
+        def g(*full):
+            def hd(*passed):
+                a = list(full)
+                for j, x in zip(pos, passed):
+                    a[j] = x
+                return h(*a)
+
+            return T(hd)(*[full[j] for j in pos])
+
+        return g
+
+    def jit(fn):
+        return jax.jit(fn, static_argnums=tuple(spos)) if spos else jax.jit(fn)
+
     n = tr[0]
-    if n == "eval_shape":
+    if n in ("eval_shape", "make_jaxpr"):
         g = h
     elif n == "jit":
-        g = jax.jit(h)
-    elif n == "make_jaxpr":
-        g = None
+        if spos and st == "names":
+            first = spos[0]
+            gj = jax.jit(h, static_argnames=tuple(f"x{j}" for j in spos))
+
+            def g(*full):
+                return gj(*full[:first], **{f"x{j}": full[j] for j in range(first, k)})
+
+        elif spos and st == "nums":
+            g = jit(h)
+        else:
+            g = closed(jax.jit, spos + conc)
     elif n == "vmap":
-        g = jax.vmap(h, in_axes=ia(tr[1]))
+        g = jax.vmap(h, in_axes=ia(axes[0]))
     elif n == "jit.vmap":
-        g = jax.jit(jax.vmap(h, in_axes=ia(tr[1])))
+        g = jit(jax.vmap(h, in_axes=ia(axes[0])))
     elif n == "vmap.jit":
-        g = jax.vmap(jax.jit(h), in_axes=ia(tr[1]))
+        g = jax.vmap(jit(h), in_axes=ia(axes[0]))
     elif n == "vmap.vmap":
-        g = jax.vmap(jax.vmap(h, in_axes=ia(tr[2])), in_axes=ia(tr[1]))
+        g = jax.vmap(jax.vmap(h, in_axes=ia(axes[1])), in_axes=ia(axes[0]))
     elif n == "grad":
-        g = jax.grad(h, argnums=tuple(range(k)))
+        g = jax.grad(h, argnums=tuple(opt.get("argnums", apos)))
     elif n == "grad.jit":
-        g = jax.grad(jax.jit(h), argnums=tuple(range(k)))
+        g = jax.grad(jit(h), argnums=tuple(apos))
     else:
         raise common.HarnessError(f"unknown transformation {tr}")
+
+    def outer(*placeholders):
+        full = [None] * k
+        for j, x in zip(dyn, placeholders):
+            full[j] = x
+        for j, x in held.items():
+            full[j] = x
+        return g(*full)
+
     CELL["rs"], CELL["dt"] = _rs(rs), E["dts"][rdt]
-    if g is None:
-        return _outcome(lambda: jax.make_jaxpr(h)(*structs))
-    return _outcome(lambda: jax.eval_shape(g, *structs))
+    if not dyn:  # every argument concrete: vmap / grad called directly
+        if n not in ("vmap", "grad"):
+            raise common.HarnessError(f"{tr}: no traced argument")
+        return _outcome(lambda: outer())
+    if n == "make_jaxpr":
+        return _outcome(lambda: jax.make_jaxpr(outer)(*structs))
+    return _outcome(lambda: jax.eval_shape(outer, *structs))
 
 
 def judge(ref, traced):
@@ -494,14 +737,15 @@ def _run_job(job):
               per_family={})
     viols, samples = [], []
     sample_slots = {"vmap_accepts_outer_rejects": None, "vmap_rejects_outer_accepts": None, "accepted": None, "grad_reject": None, "tree": None}
-    for fname, idx in job["items"]:
+    for fname, idx, part, nparts in job["items"]:
         fam = fam_by_name[fname]
         spec = fns_by_name[fname][idx]
         _set_tbf(fam["tbf"])
         F = build_fn(spec)
-        st["functions"] += 1
         pf = st["per_family"].setdefault(fname, dict(functions=0, inputs=0, evaluations=0))
-        pf["functions"] += 1
+        if part == 0:
+            st["functions"] += 1
+            pf["functions"] += 1
         memo = {}
 
         def ref_for(seen, rs, rdt):
@@ -515,7 +759,7 @@ def _run_job(job):
             return memo[key]
 
         annotated_positions = len(spec[1]) + (spec[2] is not None)
-        for vals, rs, rdt, trs in enumerate_cases(fam, spec):
+        for vals, rs, rdt, trs in enumerate_cases(fam, spec, part, nparts):
             st["inputs"] += 1
             pf["inputs"] += 1
             pf["evaluations"] += len(trs)
@@ -566,7 +810,7 @@ def _run_job(job):
                         slot = "vmap_rejects_outer_accepts"
                     elif tr[0].startswith("grad") and r != "ok" and sample_slots["grad_reject"] is None:
                         slot = "grad_reject"
-                    elif any(v[0] != "A" for v in vals) and is_vmap and sample_slots["tree"] is None:
+                    elif any(v[0] not in ("A",) + STATIC_KINDS for v in vals) and is_vmap and sample_slots["tree"] is None:
                         slot = "tree"
                     elif r == "ok" and annotated_positions >= 2 and sample_slots["accepted"] is None:
                         slot = "accepted"
@@ -766,26 +1010,29 @@ def _extra_job(job):
 
 
 def plan(tier):
-    """[(family, fn index, number of traced evaluations)] by pure enumeration (nothing is executed)."""
+    """[(family, fn index, part, nparts, number of traced evaluations)] by pure enumeration (nothing is executed)."""
     out = []
     for fam in families(tier):
         for i, spec in enumerate(family_functions(fam)):
-            n = sum(len(trs) for _, _, _, trs in enumerate_cases(fam, spec))
-            out.append((fam["name"], i, n))
+            counts = [len(trs) for _, _, _, trs in enumerate_cases(fam, spec)]
+            nparts = max(1, -(-sum(counts) // PART_SIZE))
+            for part in range(nparts):
+                out.append((fam["name"], i, part, nparts, sum(counts[part::nparts])))
     return out
 
 
 def run(ctx):
     fams = families(ctx.tier)
     items = plan(ctx.tier)
-    expected = sum(n for _, _, n in items)
+    expected = sum(t[4] for t in items)
+    n_functions = len({(t[0], t[1]) for t in items})
     # longest-processing-time packing into bins: deterministic, seed only rotates the hand-out order
     n_bins = max(1, min(len(items), common.NCPU * 4))
     bins = [[0, []] for _ in range(n_bins)]
-    for fname, i, n in sorted(items, key=lambda t: (-t[2], t[0], t[1])):
+    for fname, i, part, nparts, n in sorted(items, key=lambda t: (-t[4], t[0], t[1], t[2])):
         b = min(bins, key=lambda x: x[0])
         b[0] += n + 20
-        b[1].append([fname, i])
+        b[1].append([fname, i, part, nparts])
     jobs = [dict(tier=ctx.tier, items=b[1]) for b in bins if b[1]]
     r = ctx.seed % len(jobs)
     rot = jobs[r:] + jobs[:r]
@@ -798,8 +1045,8 @@ def run(ctx):
     outs = outs[len(jobs) - r:] + outs[: len(jobs) - r] if r else outs  # back to the seed-independent order
     stats = common.merge_counts(o[0] for o in outs)
     per_family = stats["per_family"]
-    if stats["evaluations"] != expected or stats["functions"] != len(items):
-        raise common.HarnessError(f"planned {expected} evaluations of {len(items)} functions, workers reported {stats['evaluations']} of {stats['functions']}")
+    if stats["evaluations"] != expected or stats["functions"] != n_functions:
+        raise common.HarnessError(f"planned {expected} evaluations of {n_functions} functions, workers reported {stats['evaluations']} of {stats['functions']}")
     viols = [Violation(**v) for o in outs for v in o[1]]
     x_st = common.merge_counts(o[1] for o in xouts)
     x_viols = [v for o in xouts for v in o[2]]
@@ -846,11 +1093,19 @@ def run(ctx):
             tier=ctx.tier,
             families={
                 f["name"]: dict(signatures=len(f["sigs"]), typecheckers=TCS, array_shapes=[list(s) for s in f["arr"]], trees=len(f.get("trees", [])), ret_shapes=[s if s == "like0" else list(s) for s in f["RS"]],
-                                transformations=f["tr"], traceback_filtering=f["tbf"])
+                                transformations=f["tr"], traceback_filtering=f["tbf"], int32_configs=f["ints"], partial_tracing=f["partial"], static_values=f["statics"])
                 for f in fams
             },
+            fstring_axes=dict(over_array_parameters=FSTR, mixed=FSTR_MIXED, over_static_parameters=["{x1}", "{x1.size}", "{x1}+1", "{x1}*a", "{x0.ndim+x1}"], shapes=[list(x) for x in S_F]),
+            containers="order2 / order_ret: dicts with keys p,q (both insertion orders) and p,q,r (all six) with per-key different shapes, namedtuples, dict-of-tuple, dict-of-dict "
+            "(inner orders too), None leaves, under PyTree[Float[Array,d],'T'] with d in {'?a', '*?v', 'a', '_ a'}; every ordered PAIR of argument trees, and every (argument tree, "
+            "returned dict) pair where the body builds the returned dict in the stated insertion order",
+            partial_tracing="families with partial_tracing=True additionally run, per input: eval_shape and jit with every non-empty proper subset of the arguments held as concrete "
+            "closure constants; vmap with the in_axes-None arguments concrete, and with every argument concrete (called directly); grad with every non-empty proper subset as argnums, the rest concrete",
+            static_arguments="int / Cfg parameters are never traced: closure under eval_shape / make_jaxpr, closure | static_argnums | static_argnames (passed by keyword) under jit, "
+            "in_axes None under vmap, outside argnums under grad, static_argnums in the compositions",
             D=D, S=[list(s) for s in S], in_axes="every element of {None,0,1}^k that JAX accepts for the shapes (axis in range, equal mapped sizes, not all None); vmap.vmap: every valid pair",
-            dtypes="float32 everywhere | int32 at parameter j (first leaf for PyTrees), j < k | int32 result",
+            dtypes="float32 everywhere | int32 at parameter j (first leaf for PyTrees), j < k (families with int32_configs) | int32 result",
             fillings=FILLS,
         ),
     )
